@@ -470,6 +470,51 @@ class Interp:
         for s1, sv in self.ev(e["scrut"], st):
             # literal scrutinee: select statically when possible
             remaining = None  # variants not yet taken by an earlier arm (for the catch-all)
+            # a match on a tuple of values is a conjunction of conditions on the components (so that
+            # `match (a, b) { (true, false) => .. }` and `if a { if !b { .. } }` name their paths alike)
+            if isinstance(sv, dict) and sv.get("v") == "tuple" and all(self._tuple_arm(arm["pat"], len(sv["xs"])) for arm in e["arms"]):
+                for arm in e["arms"]:
+                    a = s1.fork()
+                    pat = arm["pat"]
+                    while pat["k"] in ("ref", "typed"):
+                        pat = pat["pat"]
+                    feasible = True
+                    if pat["k"] == "tuple":
+                        for x, pe_ in zip(sv["xs"], pat["elems"]):
+                            q = pe_
+                            while q["k"] in ("ref", "typed"):
+                                q = q["pat"]
+                            if rx.is_catchall(q):
+                                if q["k"] == "ident":
+                                    a.env[q["name"]] = x
+                                continue
+                            lab = self.pat_label(q)
+                            if x.get("v") in ("bool", "char", "int"):
+                                have = {"bool": lambda: repr(x["b"]), "char": lambda: repr(x["c"]), "int": lambda: repr(x["n"])}[x["v"]]()
+                                if have not in lab:
+                                    feasible = False
+                                    break
+                                continue
+                            if len(lab) == 1 and lab[0] in ("True", "False"):
+                                cnd = (canon(x), lab[0] == "True")
+                            else:
+                                ol = option_label(lab, set()) if x.get("v") == "hole" else None
+                                cnd = (canon(x), ol) if ol is not None else (canon(x), lab)
+                            # contradiction with an earlier condition on the same subject: infeasible arm
+                            if any(c0[0] == cnd[0] and c0[1] != cnd[1] and not isinstance(c0[1], tuple) and not isinstance(cnd[1], tuple) for c0 in a.conds):
+                                feasible = False
+                                break
+                            a.conds = a.conds + (cnd,)
+                            self.bind_pattern(q, x, a)
+                    elif pat["k"] == "ident":
+                        a.env[pat["name"]] = sv
+                    if not feasible:
+                        continue
+                    if arm["guard"] is not None:
+                        gv = self.ev(arm["guard"], a.fork())
+                        a.conds = a.conds + ((canon(gv[0][1]) if len(gv) == 1 else src(arm["guard"]), True),)
+                    out += self.ev(arm["body"], a)
+                continue
             is_opt = isinstance(sv, dict) and sv.get("v") == "hole" and any(self.pat_label(a_["pat"])[0] in ("None",) or str(self.pat_label(a_["pat"])[0]).startswith("Some(") for a_ in e["arms"] if len(self.pat_label(a_["pat"])) == 1)
             seen_opt = set()
             for arm in e["arms"]:
@@ -500,6 +545,13 @@ class Interp:
                     a.conds = a.conds + ((canon(gv[0][1]) if len(gv) == 1 else src(arm["guard"]), True),)
                 out += self.ev(arm["body"], a)
         return out
+
+    def _tuple_arm(self, pat, n):
+        while pat["k"] in ("ref", "typed"):
+            pat = pat["pat"]
+        if pat["k"] == "tuple":
+            return len(pat["elems"]) == n and not any(x["k"] == "rest" for x in pat["elems"])
+        return rx.is_catchall(pat)
 
     def ev_assign(self, e, st):
         out = []
@@ -594,7 +646,7 @@ class Interp:
             outs = nxt
         res = []
         for s1, argv in outs:
-            if fname in ("String::from", "Some", "Box::new", "Rc::new") and len(argv) == 1:
+            if fname in ("String::from", "Some", "Box::new", "Rc::new", "Cow::Borrowed", "Cow::Owned", "Cow::from", "Arc::new", "std::borrow::Cow::Borrowed", "std::borrow::Cow::Owned") and len(argv) == 1:
                 res.append((s1, argv[0] if fname != "Some" else {"v": "some", "x": argv[0]}))
                 continue
             if fname == "Ok" and len(argv) == 1:
@@ -654,8 +706,16 @@ class Interp:
             or out_ty.startswith("Box<dyn")
             or out_ty.startswith("(")
         )
+        # private helpers are an implementation detail: always looked into, so that extracting or renaming one changes
+        # nothing; public functions keep the allow-list (their names are interface and appear in the reference tables)
+        if fn.node.get("vis") != "pub" and not fn.test:
+            inline = True
+        stack = getattr(self, "_callstack", [])
+        if key in stack:
+            return [(st, H("call", src(callnode), callee=key, args=argv, ty=out_ty, recursive=True))]
         if not inline:
             return [(st, H("call", src(callnode), callee=key, args=argv, ty=out_ty))]
+        self._callstack = stack + [key]
         self.depth += 1
         try:
             s1 = st.fork()
@@ -681,6 +741,7 @@ class Interp:
             return out
         finally:
             self.depth -= 1
+            self._callstack = stack
 
     def ev_mcall(self, e, st):
         m = e["m"]
@@ -710,7 +771,7 @@ class Interp:
             v = argv[0]
             st.buf = st.buf + ([C(v["c"])] if v.get("v") == "char" else [("h", v)])
             return [(st, {"v": "unit"})]
-        if m in ("to_string", "to_owned", "clone", "into", "as_str", "as_ref", "borrow", "as_mut", "to_vec", "iter", "into_iter", "cloned", "copied", "unwrap", "as_deref") and not argv:
+        if m in ("to_string", "to_owned", "clone", "into", "as_str", "as_ref", "borrow", "as_mut", "to_vec", "iter", "into_iter", "cloned", "copied", "unwrap", "as_deref", "into_owned", "as_slice", "into_boxed_str", "into_string", "deref") and not argv:
             if m == "unwrap":
                 if k == "some":
                     return [(st, rv["x"])]
@@ -1304,7 +1365,18 @@ def canon_parts(parts):
 
 def canon_conds(conds):
     out = []
-    for c in conds:
+    seen = set()
+    def structural(c):
+        # conditions that destructure the input (self, parameters, payloads) keep the order in which they were met — an
+        # inner payload can only be examined after the outer one; all other conditions are sorted
+        subj = str(c[0])
+        return subj == "self" or re.fullmatch(r"@\d+", subj) is not None or re.fullmatch(r"\$[A-Za-z_:|]+(\.\d+)+", subj) is not None
+
+    ordered = [c for c in conds if structural(c)] + sorted([c for c in conds if not structural(c)], key=lambda c: (str(c[0]), str(c[1])))
+    for c in ordered:
+        if (c[0], c[1]) in seen:
+            continue
+        seen.add((c[0], c[1]))
         a, b = c[0], c[1]
         if isinstance(b, tuple):
             out.append("%s∈{%s}" % (a, ",".join(str(x) for x in b)))
